@@ -231,6 +231,8 @@ class Eval:
                 return 0 if v else 1
             if op == "~":
                 return wrap(~v, ct)
+            if op == "__extension__":
+                return v
             raise Unknown("unary " + str(op), n)
         if k == "BinaryOperator":
             op = n.get("opcode")
@@ -277,6 +279,17 @@ class Eval:
             return self._load(ks[0])
         if k == "ConditionalOperator":
             return self.ev(ks[1]) if self.ev(ks[0]) else self.ev(ks[2])
+        if k == "StmtExpr" and ks:
+            # GNU statement expression (glibc's assert expands to one): the statements run, the last expression is the value
+            body = A.kids(ks[0]) if ks[0].get("kind") == "CompoundStmt" else ks
+            val = 0
+            for st in body:
+                if st.get("kind", "").endswith("Stmt") or st.get("kind") in ("DeclStmt",):
+                    self.run(st)
+                    val = 0
+                else:
+                    val = self.ev(st)
+            return val
         if k == "CallExpr":
             name = A.callee_name(n)
             if self.call is None:
